@@ -6,7 +6,7 @@ The structured form of one statement is the row as an object {"op": operation, a
   * `positional_args`, `attrs`, `supers` (stringified Python lists) become lists of strings;
   * `named_args` (stringified dict) becomes a list of [name, token] pairs;
   * position/bookkeeping columns are dropped (start/end row/col, decorators, unit_id, ids, original_stmt,
-    data_type).
+    data_type — except the data_type of new_object, which names the instantiated class).
 Nothing else is normalised.  Structural inconsistencies of the rows (parent ids that contradict the
 block_start/block_end nesting, dangling block references) raise Malformed.
 """
@@ -15,6 +15,9 @@ import ast, json, math, os
 DROP = {"stmt_id", "parent_stmt_id", "unit_id", "start_row", "start_col", "end_row", "end_col",
         "decorators", "original_stmt", "data_type", "operation"}
 LIST_ATTRS = {"positional_args", "attrs", "supers", "attr"}
+# `data_type` is part of the meaning of these operations (the class that is instantiated); everywhere else it is a
+# type annotation and dropped
+KEEP_DATA_TYPE = {"new_object"}
 
 
 class Malformed(Exception):
@@ -135,7 +138,7 @@ def rows_to_tree(rows):
         sid = r["stmt_id"]
         node = {"op": r["operation"]}
         for k, v in r.items():
-            if k in DROP:
+            if k in DROP and not (k == "data_type" and r["operation"] in KEEP_DATA_TYPE):
                 continue
             if isinstance(v, int) and not isinstance(v, bool) and v in blocks and blocks[v]["owner"] == sid:
                 used.add(v)
